@@ -16,13 +16,13 @@ from . import _script, _util as U, _gwin
 PID = "C02"
 MOD = "bbverif.checks.c02"
 
-META = ["plain", "target", "target_opts", "type", "target_type_opts", "device", "blank_lines", "str_opts", "pos_and_kw_opts", "empty_and_list_opts",
+META = ["plain", "target", "target_opts", "type", "target_type_opts", "device", "blank_lines", "str_opts", "odd_str_opts", "pos_and_kw_opts", "empty_and_list_opts",
         # the version is reported as written, whatever its spelling
         "ver:1.10", "ver:01.5", "ver:2.00", "ver:1e1", "ver:1.5E-3", "ver:0.10", "ver:1.0000000000000000001", "ver:10.0e+0"]
 STMTS = ["noargs1", "noargs2_sq", "noargs2_rb", "noargs2_bare", "pos_num", "pos_mixed", "kw_num", "kw_list", "kw_mixed",
          "pos_kw", "measure", "measure_kw", "var_int_mode", "var_float_arg", "var_expr", "var_str_bool", "array_arg",
          "array_idx", "loop_list", "loop_repeat", "loop_range", "trailing_comma", "expr_mode", "complex_arg", "empty_args", "str_like_literals", "number_spellings",
-         "repeat_stmt", "high_index", "int_ops_in_modes", "int_divisors", "loop_index_func_kwlist", "redeclare_after_loop"]
+         "repeat_stmt", "high_index", "int_ops_in_modes", "int_divisors", "loop_index_func_kwlist", "redeclare_after_loop", "str_odd_chars"]
 
 
 class Env:
@@ -61,6 +61,9 @@ def meta_lines(kind, lv):
         # strings whose content is spelled like another kind of literal stay strings
         L.append('target dev (label="True", tag="1.5", flag="False", n=%s)' % lv.int())
         L.append('type kind (mode="pi", names=["None", "2j", "False"])')
+    elif kind == "odd_str_opts":
+        L.append('target dev (label="a\x0cb", tag="x\u2028y ", n=%s)' % lv.int())
+        L.append('type kind (names=["\x0b", "\x85", " # "])')
     elif kind == "pos_and_kw_opts":
         # positional entries in the option brackets are ignored (with a warning); the keyword options next to them are kept
         L.append("target gaussian (%s, shots=%s, cutoff_dim=%s)" % (lv.int(), lv.int(), lv.int()))
@@ -81,6 +84,12 @@ def stmt_lines(kind, env):
     if kind == "number_spellings":
         # the same numbers written with leading zeros, upper-case / signed exponents, trailing zeros (concrete literals)
         return ["int n = 007", "Dgate(0100, 01.50, 1e05, 1E+2, 2.50e-01, k=00, j=007+02j) | [01, 002]", "Vac | n", "Rgate(1e+16, 0.000001, 123456789012345678) | 3"]
+    if kind == "str_odd_chars":
+        # characters that Python's str methods treat as line breaks / blanks / digits but that are ordinary characters of a string
+        # literal (STR : '"' (~["\n\r])* '"'): a string comes back exactly as written
+        v = env.name("s")
+        return ['str %s = "a\x0cb"' % v, 'Gate("x\x0by", " lead and trail ", %s, k="u\u2028v\u2029w", names=["\x1c", "\x85z", "t\tt", "\xa0\u3000"], w=%s) | %s' % (lv.float(), v, m()),
+                'Gate("\u0661\u0662", "#no comment", "caf\u00e9 \u00df", k="\x1d\x1e") | %s' % m()]
     if kind == "str_like_literals":
         v = env.name("s")
         return ['str %s = "False"' % v, 'Gate("True", "False", %s, k="pi", names=["1", "None", "True", "q0"], w=%s) | %s' % (lv.float(), v, m()),
